@@ -138,7 +138,8 @@ impl<T: Debug + Clone + Ord> BooleanFunction<T> for Bdd<T> {
     fn is_equivalent(&self, other: &Self) -> bool {
         let (self_lifted, other_lifted, _common_inputs) = self.union_and_extend(other);
 
-        self_lifted.bdd == other_lifted.bdd
+        // structural `==` depends on the order of the nodes in the arrays, which is not canonical
+        self_lifted.bdd.iff(&other_lifted.bdd).is_true()
     }
 
     fn is_implied_by(&self, other: &Self) -> bool {
